@@ -4,7 +4,8 @@
 From Coq Require Import NArith List Bool.
 Require Import SDS.Model.Mach SDS.Model.Bits SDS.Model.IntVec SDS.Model.RL SDS.gen.Consts SDS.gen.Funs.
 Require Import SDS.Spec.Runs.
-Require Import SDS.Proofs.RLIntVec SDS.Proofs.RLVarint SDS.Proofs.RLIndex SDS.Proofs.RLRep SDS.Proofs.RLProof.
+Require Import SDS.Proofs.RLIntVec SDS.Proofs.RLVarint SDS.Proofs.RLIndex SDS.Proofs.RLRep SDS.Proofs.RLIter SDS.Proofs.RLBounds
+               SDS.Proofs.RLProof.
 Import ListNotations.
 Open Scope N_scope.
 
@@ -106,6 +107,19 @@ Theorem C03_block_partition : forall (m : mode) (R : list (N * N)) (L : N),
     concat BS = maximal R /\ rl_ok v BS L.
 Proof. exact rl_block_partition. Qed.
 Print Assumptions C03_block_partition.
+
+(* the bound behind the exact (unchecked) arithmetic of RunIter and the scan loops in the model: in every state
+   the run iterator can reach (the position invariant [Abs]: it has yielded the runs dn and will yield todo),
+   rank <= offset <= len < 2^64 and the next run lies between the offset and len *)
+Theorem C03_runiter_bounds : forall v BS L it dn todo,
+  rl_ok v BS L -> Abs BS it dn todo ->
+  ri_rank it <= ri_off it /\ ri_off it <= L /\ L < 2 ^ 64 /\
+  match todo with
+  | [] => True
+  | r :: _ => ri_off it <= fst r /\ 1 <= snd r /\ fst r + snd r <= L /\ ri_rank it + snd r <= fst r + snd r
+  end.
+Proof. exact runiter_bounds. Qed.
+Print Assumptions C03_runiter_bounds.
 
 (* the derived iterators: for every n, the first n items of select_iter(r) / select_zero_iter(r) / one_iter() /
    zero_iter() / iter() are the ranked set positions from rank r, the ranked unset positions, and the bits *)
